@@ -2,6 +2,9 @@ package main
 
 import (
 	"fmt"
+	"go/ast"
+	"go/constant"
+	"go/token"
 	"go/types"
 	"os"
 	"path/filepath"
@@ -210,32 +213,57 @@ func (g *Gen) implementers(iface types.Type) []types.Type {
 }
 
 func (g *Gen) loadKeywords() {
-	// token.Keywords is a []TokenKind composite literal: read the string constants from the AST.
+	// token.Keywords is a []TokenKind composite literal of string constants; token.init copies it into
+	// KeywordsMap (trusted: KeywordsMap == set(Keywords), the map is never written afterwards — C18 frames).
 	for _, p := range g.pkgs {
 		if p.Name != "token" {
 			continue
 		}
-		obj := p.Types.Scope().Lookup("Keywords")
-		if obj == nil {
-			return
-		}
-		for id, def := range p.TypesInfo.Defs {
-			if def != obj {
-				continue
+		for _, f := range p.Syntax {
+			for _, d := range f.Decls {
+				gd, ok := d.(*ast.GenDecl)
+				if !ok || gd.Tok != token.VAR {
+					continue
+				}
+				for _, sp := range gd.Specs {
+					vs := sp.(*ast.ValueSpec)
+					if len(vs.Names) != 1 || vs.Names[0].Name != "Keywords" || len(vs.Values) != 1 {
+						continue
+					}
+					cl, ok := vs.Values[0].(*ast.CompositeLit)
+					if !ok {
+						continue
+					}
+					for _, e := range cl.Elts {
+						tv, ok := p.TypesInfo.Types[e]
+						if ok && tv.Value != nil && tv.Value.Kind() == constant.String {
+							g.keywordSet = append(g.keywordSet, constant.StringVal(tv.Value))
+						}
+					}
+				}
 			}
-			_ = id
-		}
-		// find constants of type TokenKind referenced in the literal: simpler: all consts of
-		// type TokenKind whose value has no '<'
-		for _, name := range p.Types.Scope().Names() {
-			_ = name
 		}
 	}
 }
 
+// keywordMember: key is an element of token.Keywords (exact, by content).
 func (fx *fnExec) keywordMember(key StrV) string {
-	f := fx.s.declFun("member!token.KeywordsMap", []Sort{arrOf(SInt), SInt, SInt}, SBool)
-	return app(f, key.Arr, key.Off, key.Len)
+	if len(fx.g.keywordSet) == 0 {
+		panic(unsupported("token.Keywords literal not found"))
+	}
+	if t, ok := fx.kwCache[key]; ok {
+		return t
+	}
+	var alts []string
+	for _, kw := range fx.g.keywordSet {
+		alts = append(alts, fx.strEq(key, fx.strLit(kw)))
+	}
+	t := fx.s.define("iskeyword", SBool, or(alts...))
+	if fx.kwCache == nil {
+		fx.kwCache = map[StrV]string{}
+	}
+	fx.kwCache[key] = t
+	return t
 }
 
 // ---- verifying one function
@@ -356,7 +384,7 @@ func (fx *fnExec) finish(fr *frame, exits []*Exit) {
 		allowed = fx.evalBool(c.PanicWhen.E, preEnv)
 	}
 	for _, e := range panics {
-		tags := append([]string{"C03", "panic"}, c.Props...)
+		tags := append([]string{"panic"}, fr.safetyTags()...)
 		goal := allowed
 		detail := e.Why
 		if e.Why == "panic statement" {
@@ -393,6 +421,11 @@ func (fx *fnExec) checkPost(e *Exit) {
 	rt := fn.Signature.Results()
 	final := e.St
 	env := fx.baseEnv(final)
+	if e.Fr != nil && e.Blk != nil {
+		env.fr = e.Fr
+		env.at = e.Blk
+		env.atEnd = true
+	}
 	switch rt.Len() {
 	case 0:
 	case 1:
@@ -406,7 +439,7 @@ func (fx *fnExec) checkPost(e *Exit) {
 	}
 	fx.nret++
 	if c.PanicKind == "always" {
-		s.oblig("post", "never-returns"+suffix, append([]string{"C03"}, c.Props...), final.reach, "false", fx.posOf(e.Pos), "function declared `panics always` has a normal exit")
+		s.oblig("post", "never-returns"+suffix, fx.topSafety(), final.reach, "false", fx.posOf(e.Pos), "function declared `panics always` has a normal exit")
 	}
 	for k, en := range c.Ensures {
 		label := en.Label
@@ -415,4 +448,11 @@ func (fx *fnExec) checkPost(e *Exit) {
 		}
 		s.oblig("post", label+suffix, c.tagsFor(en), final.reach, fx.evalBool(en.E, env), fx.posOf(e.Pos), en.Src)
 	}
+}
+
+func (fx *fnExec) topSafety() []string {
+	if fx.fn.Pkg != nil && fx.fn.Pkg.Pkg.Name() == "ast" {
+		return []string{"C04", "safety"}
+	}
+	return safetyTags
 }
